@@ -44,7 +44,33 @@ theorem serves_in_order (lines : List Line) (hdr : List (List (String × HVal)))
     (hb : 1 ≤ body.length) (start : Nat) (hs : start ≤ body.length) :
     ∃ m, openModel lines (some (start : Int)) = .ok m ∧ m.p = p ∧ m.label = label ∧
       ∀ ns : List Nat, gens p m ns = (List.range ns.length).map fun i => expected body start i (ns.getD i 0) := by
-  sorry
+  obtain ⟨rd', h1, h2⟩ := (open_wf lines hdr body p label hwf.sig hwf.keysNodup hwf.hasP hwf.hasLabel
+    hb start).1 hs
+  have hchk : openModel.chk (extrasOf hdr.flatten) [] = true := by
+    apply chk_true _ _ _ (nodup_extrasOf _ hwf.keysNodup)
+    intro kv hkv
+    obtain ⟨a, b, c, d⟩ := (mem_extrasOf _ _).mp hkv
+    obtain ⟨e, f⟩ := hwf.extrasOk kv a b c d
+    exact ⟨e, f, by simp⟩
+  rw [if_pos hchk] at h2
+  refine ⟨_, h2, rfl, rfl, ?_⟩
+  have key : ∀ (ns : List Nat) (m : Model) (k : Nat), m.p = p →
+      toks m.rd = (body.drop k).map (fun b => Tok.entry b.1 b.2) →
+      gens p m ns = (List.range ns.length).map fun i => expected body k i (ns.getD i 0) := by
+    intro ns
+    induction ns with
+    | nil => intros; rfl
+    | cons n ns ih =>
+      intro m k hmp hm
+      obtain ⟨g1, g2, g3⟩ := generate_step m body k n hm
+      rw [hmp] at g1 g2 g3
+      simp only [gens, List.length_cons, List.range_succ_eq_map, List.map_cons, List.map_map]
+      rw [ih _ (k + 1) g3 g2, g1]
+      congr 1
+      apply List.map_congr_left
+      intro i _
+      simp [expected, Nat.add_assoc, Nat.add_comm 1 i]
+  exact fun ns => key ns _ start rfl h1
 
 /-- header values are exposed: the distribution and every extra attribute -/
 theorem header_exposed (lines : List Line) (hdr : List (List (String × HVal))) (body : List (List Nat × Nat))
@@ -55,7 +81,15 @@ theorem header_exposed (lines : List Line) (hdr : List (List (String × HVal))) 
     ((∀ d, ("probability_distribution", d) ∉ hdr.flatten) → m.dist = none) ∧
     (∀ kv, kv ∈ m.extras ↔ (kv ∈ hdr.flatten ∧ kv.1 ≠ "probability" ∧ kv.1 ≠ "label" ∧
       kv.1 ≠ "probability_distribution")) := by
-  sorry
+  obtain ⟨rd', _, h2⟩ := (open_wf lines hdr body p label hwf.sig hwf.keysNodup hwf.hasP hwf.hasLabel
+    hb start).1 hs
+  rw [h2] at hm
+  split at hm
+  · injection hm with hm
+    subst hm
+    exact ⟨fun d hd => distOf_some _ d hwf.keysNodup hd, fun hd => distOf_none _ hd,
+      fun kv => mem_extrasOf _ kv⟩
+  · cases hm
 
 /-- a start beyond the recorded errors, or a file without any recorded error, is an end-of-file error
     at construction -/
@@ -63,23 +97,46 @@ theorem start_past_end (lines : List Line) (hdr : List (List (String × HVal))) 
     (p : Rat) (label : HVal) (hwf : WellFormed lines hdr body p label) (start : Nat)
     (hs : body.length < start ∨ body.length = 0) :
     openModel lines (some (start : Int)) = .error .eof := by
-  sorry
+  by_cases h0 : body.length = 0
+  · have hb : body = [] := List.length_eq_zero_iff.mp h0
+    subst hb
+    exact open_nobody lines hdr (by simpa [significant, sigToks] using hwf.sig) hwf.keysNodup start
+  · have hlt : body.length < start := by omega
+    exact (open_wf lines hdr body p label hwf.sig hwf.keysNodup hwf.hasP hwf.hasLabel (by omega) start).2 hlt
 
 /-- **refuses a wrong probability** without consuming anything -/
 theorem refuses_wrong_probability (m : Model) (n : Nat) (p : Rat) (hp : p ≠ m.p) :
     generate m n p = (.error .value, m) := by
-  sorry
+  simp [generate, hp]
 
 /-- **refuses a wrong qubit count** -/
 theorem refuses_wrong_length (m : Model) (n : Nat) (bytes : List Nat) (len : Nat) (rd' : Reader)
     (hpull : pull m.rd = (.ok (.entry bytes len), rd')) (hlen : (unpack (bytes, len)).length ≠ 2 * n) :
     (generate m n m.p).1 = .error .value := by
-  sorry
+  simp [generate, hpull, hlen]
 
 /-- **end of file is final**: once `generate` has signalled EOF it signals EOF for ever -/
 theorem eof_is_final (m : Model) (n n' : Nat) (h : (generate m n m.p).1 = .error .eof) :
     (generate (generate m n m.p).2 n' m.p).1 = .error .eof := by
-  sorry
+  have hst := pull_eof_state m.rd
+  simp only [generate, ne_eq, not_true_eq_false, if_false] at h ⊢
+  rcases hq : pull m.rd with ⟨r, rd'⟩
+  rw [hq] at h hst
+  cases r with
+  | error e =>
+    simp only at h hst
+    injection h with h
+    subst h
+    rw [hst rfl]
+    simp [pull, pull.go]
+  | ok t =>
+    cases t with
+    | entry b l =>
+      simp only at h
+      split at h <;> cases h
+    | obj kvs => cases h
+    | bad => cases h
+    | invalid => cases h
 
 /-- **comments are irrelevant**: deleting comment / blank lines changes nothing observable -/
 theorem comments_irrelevant (lines : List Line) (start : Option Int) :
@@ -89,7 +146,20 @@ theorem comments_irrelevant (lines : List Line) (start : Option Int) :
     ∀ m m', openModel lines start = .ok m →
       openModel (lines.filter fun l => !isCommentOrBlank l.raw) start = .ok m' →
       ∀ p ns, gens p m ns = gens p m' ns := by
-  sorry
+  have hc := open_congr lines (lines.filter fun l => !isCommentOrBlank l.raw) start (sigToks_filter lines).symm
+  refine ⟨ExRel_MEq_map _ _ hc, ?_⟩
+  intro m m' h1 h2
+  rw [h1, h2] at hc
+  simp only [ExRel] at hc
+  clear h1 h2
+  intro p ns
+  induction ns generalizing m m' with
+  | nil => rfl
+  | cons n ns ih =>
+    obtain ⟨g1, g2⟩ := generate_congr m m' n p hc
+    simp only [gens, g1]
+    congr 1
+    exact ih _ _ g2
 
 /-- **malformed files are rejected** at construction: missing required key -/
 theorem missing_required_key (lines : List Line) (hdr : List (List (String × HVal))) (rest : List Tok)
@@ -99,7 +169,18 @@ theorem missing_required_key (lines : List Line) (hdr : List (List (String × HV
     (hmiss : "probability" ∉ hdr.flatten.map (·.1) ∨
       ((∃ p, ("probability", HVal.num p) ∈ hdr.flatten) ∧ "label" ∉ hdr.flatten.map (·.1)))
     (start : Nat) : openModel lines (some (start : Int)) = .error .value := by
-  sorry
+  obtain ⟨ls', _, h2⟩ := readHeader_nodup hdr (lines.length + 1) lines [] rest hsig hrest
+    (by simpa using hk) (fuel_ok lines hdr rest hsig)
+  have hneg : ¬ ((start : Int) < 0) := by omega
+  rw [openModel_eq, if_neg hneg, h2]
+  cases rest with
+  | nil => exact absurd rfl hne
+  | cons t ts =>
+    simp only
+    by_cases hi : t = .invalid
+    · rw [if_pos hi]
+    · rw [if_neg hi]
+      exact finish_missing _ _ _ (by simpa using hk) (by simpa using hmiss)
 
 /-- repeated header key (in two different header objects) -/
 theorem repeated_key (lines : List Line) (hdr : List (List (String × HVal))) (rest : List Tok)
@@ -107,7 +188,11 @@ theorem repeated_key (lines : List Line) (hdr : List (List (String × HVal))) (r
     (hrep : ¬ (hdr.flatten.map (·.1)).Nodup) (hobj : ∀ o ∈ hdr, (o.map (·.1)).Nodup)
     (start : Option Int) (hst : ∃ s, start = some s ∧ 0 ≤ s) :
     openModel lines start = .error .value := by
-  sorry
+  obtain ⟨s, rfl, hs⟩ := hst
+  have hneg : ¬ (s < 0) := by omega
+  rw [openModel_eq, if_neg hneg,
+    readHeader_clash hdr (lines.length + 1) lines [] rest hsig (by simp) hobj (by simpa using hrep)
+      (fuel_ok lines hdr rest hsig)]
 
 /-- invalid or shadowing extra attribute name -/
 theorem invalid_attribute (lines : List Line) (hdr : List (List (String × HVal))) (body : List (List Nat × Nat))
@@ -119,22 +204,30 @@ theorem invalid_attribute (lines : List Line) (hdr : List (List (String × HVal)
     (hbad : ∃ kv ∈ hdr.flatten, kv.1 ≠ "probability" ∧ kv.1 ≠ "label" ∧ kv.1 ≠ "probability_distribution" ∧
       (attrNameOk kv.1 = false ∨ kv.1 ∈ takenNames)) :
     openModel lines (some (start : Int)) = .error .value := by
-  sorry
+  obtain ⟨rd', _, h2⟩ := (open_wf lines hdr body p label hsig hk hp hl hb start).1 hs
+  obtain ⟨kv, hkv, a, b, c, hbad'⟩ := hbad
+  rw [h2, if_neg]
+  rw [chk_false _ _ ⟨kv, (mem_extrasOf _ _).mpr ⟨hkv, a, b, c⟩, hbad'⟩]
+  simp
 
 /-- bad `start` argument -/
 theorem bad_start (lines : List Line) :
     openModel lines none = .error .type ∧ ∀ s : Int, s < 0 → openModel lines (some s) = .error .value := by
-  sorry
+  exact ⟨rfl, fun s hs => by simp [openModel, hs]⟩
 
 /-- a header object after the body, a non-record JSON value, or invalid JSON is refused by the
     `generate` that reaches it (never returned as an error vector) -/
 theorem bad_body_value_refused (m : Model) (n : Nat) (t : Tok) (rd' : Reader)
     (hpull : pull m.rd = (.ok t, rd')) (ht : ∀ b l, t ≠ .entry b l) :
     (generate m n m.p).1 = .error .rejected := by
-  sorry
+  cases t with
+  | entry b l => exact absurd rfl (ht b l)
+  | obj kvs => simp [generate, hpull]
+  | bad => simp [generate, hpull]
+  | invalid => simp [generate, hpull]
 theorem invalid_json_refused (m : Model) (n : Nat) (rd' : Reader)
     (hpull : pull m.rd = (.error .value, rd')) : (generate m n m.p).1 = .error .value := by
-  sorry
+  simp [generate, hpull]
 
 /-! non-vacuity: header split over two objects, a comment, two records -/
 def exLines : List Line :=
